@@ -60,6 +60,70 @@ mut("M62", "lengthlimit_reader.go", "		if r.curLineLength > r.LineLimit {\n			re
 mut("M01", "conn.go", "	r.limited = false\n	io.Copy(ioutil.Discard, r) // Make sure all the data has been consumed\n	c.writeResponse(code, enhancedCode, msg)", "	io.Copy(ioutil.Discard, r) // Make sure all the data has been consumed\n	c.writeResponse(code, enhancedCode, msg)", ["C02"], "handleData/post:resync", note="handleData: limit not lifted before draining")
 mut("M63", "conn.go", "	code, enhancedCode, msg := dataErrorToStatus(c.Session().Data(r))\n	r.limited = false\n	io.Copy(ioutil.Discard, r) // Make sure all the data has been consumed", "	code, enhancedCode, msg := dataErrorToStatus(c.Session().Data(r))\n	if code == 250 {\n		r.limited = false\n		io.Copy(ioutil.Discard, r) // Make sure all the data has been consumed\n	}", ["C02"], "handleData/post:resync", note="handleData: message drained only when the backend accepted it")
 mut("M09", "conn.go", "	if !c.fromReceived || len(c.recipients) == 0 {\n		c.writeResponse(502, EnhancedCode{5, 5, 1}, \"Missing RCPT TO command.\")\n		return\n	}\n\n	// We have recipients, go to accept data", "	if !c.fromReceived {\n		c.writeResponse(502, EnhancedCode{5, 5, 1}, \"Missing RCPT TO command.\")\n		return\n	}\n\n	// We have recipients, go to accept data", ["C03"], "Session.Data", note="handleData: guard only !fromReceived")
+mut("M02", "conn.go", "if c.server.MaxRecipients > 0 && len(c.recipients) >= c.server.MaxRecipients {", "if c.server.MaxRecipients > 0 && len(c.recipients) > c.server.MaxRecipients {", ["C03"], "below-recipient-limit", note="recipient limit off by one")
+mut("M04b", "conn.go", """	c.helo = domain
+
+	// RFC 5321: "An EHLO command MAY be issued by a client later in the session"
+	if c.session != nil {
+		// RFC 5321: "... the SMTP server MUST clear all buffers
+		// and reset the state exactly as if a RSET command has been issued."
+		c.reset()
+	} else {
+		sess, err := c.server.Backend.NewSession(c)
+		if err != nil {
+			c.helo = ""
+			c.writeError(451, EnhancedCode{4, 0, 0}, err)
+			return
+		}
+
+		c.setSession(sess)
+	}
+""", """	// RFC 5321: "An EHLO command MAY be issued by a client later in the session"
+	if c.session != nil {
+		// RFC 5321: "... the SMTP server MUST clear all buffers
+		// and reset the state exactly as if a RSET command has been issued."
+		c.reset()
+	} else {
+		sess, err := c.server.Backend.NewSession(c)
+		if err != nil {
+			c.writeError(451, EnhancedCode{4, 0, 0}, err)
+			return
+		}
+
+		c.setSession(sess)
+	}
+	c.helo = domain
+""", ["C03"], "NewSession", note="helo set only after session creation: backend cannot see the greeting name")
+mut("M38", "conn.go", "	c.fromReceived = false\n	c.recipients = nil\n}", "	c.fromReceived = false\n}", ["C03"], "reset/post:tx-discarded", note="reset keeps the recipients")
+mut("M26", "conn.go", """		c.writeResponse(502, EnhancedCode{5, 5, 1}, "MAIL not allowed during message transfer")
+		return
+	}""", """		c.writeResponse(502, EnhancedCode{5, 5, 1}, "MAIL not allowed during message transfer")
+	}""", ["C03", "C04"], "handleMail", note="MAIL during BDAT: 502 written but processing continues")
+mut("M64", "conn.go", """	c.writeResponse(250, EnhancedCode{2, 0, 0}, fmt.Sprintf("Roger, accepting mail from <%v>", from))
+	c.fromReceived = true""", """	c.fromReceived = true
+	if err := c.Session().Mail(from, opts); err != nil {
+		c.writeError(451, EnhancedCode{4, 0, 0}, err)
+		return
+	}
+	c.writeResponse(250, EnhancedCode{2, 0, 0}, fmt.Sprintf("Roger, accepting mail from <%v>", from))""", ["C03"], "handleMail", note="second Mail callback and fromReceived set before the backend accepted")
+mut("M08", "conn.go", "	c.helo = \"\"\n	c.didAuth = false\n	c.reset()", "	c.helo = \"\"\n	c.reset()", ["C09", "C10"], "upgrade-forgets-plaintext-state", note="STARTTLS keeps the authentication state")
+mut("M41", "conn.go", """	if _, isTLS := c.TLSConnectionState(); isTLS {
+		c.writeResponse(502, EnhancedCode{5, 5, 1}, "Already running in TLS")
+		return
+	}
+
+	if c.server.TLSConfig == nil {""", """	if c.server.TLSConfig == nil {""", ["C10"], "not-already-tls", note="STARTTLS accepted when TLS is already active")
+mut("M65", "conn.go", "	c.conn = tlsConn\n	c.init()\n", "	c.init()\n	c.conn = tlsConn\n", ["C10"], "upgrade-new-limiter-over-tls", note="init() before the conn store: the new reader still reads the plaintext socket")
+mut("M13", "conn.go", """	if !c.authAllowed() {
+		c.writeResponse(523, EnhancedCode{5, 7, 10}, "TLS is required")
+		return
+	}
+
+	mechanism""", """	mechanism""", ["C09"], "only-when-allowed", note="AUTH accepted on insecure connections")
+mut("M40", "conn.go", """	response := ir
+	for {""", """	response := ir
+	c.didAuth = true
+	for {""", ["C09"], "handleAuth", note="didAuth set before the exchange completes")
 # ---------------------------------------------------------------- refactorings (must pass)
 mut("R01", "data.go", "func (r *dataReader) Read(b []byte) (n int, err error) {", "func (r *dataReader) Read(b []byte) (n int, err error) {\n	_ = 0", ["C01", "C02", "C06", "C07"], kind="refactor", note="no-op statement inserted")
 mut("R02", "data.go", """		if r.n <= 0 {
